@@ -331,8 +331,10 @@ int32_t jls_twr_signal_def(struct jls_twr_s * self, const struct jls_signal_def_
         return JLS_ERROR_PARAMETER_INVALID;
     }
     jls_bkt_process_lock(self->bk);
-    self->fsr_entry_size_bits[signal->signal_id] = jls_datatype_parse_size(signal->data_type);
     int32_t rv = jls_wr_signal_def(self->wr, signal);
+    if (0 == rv) {  // a rejected (e.g. duplicate) definition must not change the size used for queued samples
+        self->fsr_entry_size_bits[signal->signal_id] = jls_datatype_parse_size(signal->data_type);
+    }
     jls_bkt_process_unlock(self->bk);
     return rv;
 }
